@@ -741,7 +741,11 @@ func (e *termEnv) fieldTerm(base ssa.Value, field int) *Term {
 		}
 		if n == 1 {
 			if p, ok := only.Val.(*ssa.Parameter); ok {
-				return tleaf(typeShort(base.Type()) + "." + st.Field(field).Name() + "@" + e.termOf(p).String())
+				pt := e.termOf(p)
+				if pt.Op == "struct" && field < len(pt.Args) {
+					return pt.Args[field] // the caller passed a literal: the field is what the literal gives it
+				}
+				return tleaf(typeShort(base.Type()) + "." + st.Field(field).Name() + "@" + pt.String())
 			}
 		}
 	}
@@ -795,6 +799,11 @@ func (e *termEnv) load(u *ssa.UnOp) *Term {
 			// never assigned: the zero value it was allocated with
 			if _, isStruct := a.Type().(*types.Pointer).Elem().Underlying().(*types.Struct); !isStruct {
 				return zeroTerm(a.Type().(*types.Pointer).Elem())
+			}
+		}
+		if len(stores) == 0 && selfCopies == 0 {
+			if lit := e.structLiteral(a); lit != nil {
+				return lit
 			}
 		}
 		if e.loading == nil {
@@ -913,7 +922,7 @@ func (e *termEnv) callTerm(c *ssa.Call) *Term {
 		}
 	}
 	// inline small pure loop-free repo helpers (min, absDiff, getters, ...)
-	if e.w.IsRepoFunc(callee) && (e.forceInline[callee] || isPureHelper(callee, 0)) {
+	if pinned, isSet := e.forceInline[callee]; e.w.IsRepoFunc(callee) && !(isSet && !pinned) && (pinned || isPureHelper(callee, 0)) {
 		if t := e.inline(callee, cc.Args); t != nil {
 			return t
 		}
@@ -1807,4 +1816,51 @@ func cellEscapes(a *ssa.Alloc) bool {
 		}
 	}
 	return false
+}
+
+// structLiteral: a local of struct type that is only ever filled field by field (each field stored at most once, no
+// whole-value store, its address and its fields' addresses handed to nobody) and then read as a whole - a composite
+// literal T{f: v, ...}. The term lists the fields' values in declaration order (zero values for omitted fields).
+func (e *termEnv) structLiteral(a *ssa.Alloc) *Term {
+	pt, ok := a.Type().(*types.Pointer)
+	if !ok {
+		return nil
+	}
+	st, ok := pt.Elem().Underlying().(*types.Struct)
+	if !ok || a.Referrers() == nil {
+		return nil
+	}
+	vals := make([]ssa.Value, st.NumFields())
+	for _, r := range *a.Referrers() {
+		switch x := r.(type) {
+		case *ssa.FieldAddr:
+			if x.Referrers() == nil {
+				return nil
+			}
+			for _, fr := range *x.Referrers() {
+				switch y := fr.(type) {
+				case *ssa.Store:
+					if y.Addr != ssa.Value(x) || vals[x.Field] != nil {
+						return nil
+					}
+					vals[x.Field] = y.Val
+				case *ssa.UnOp, *ssa.DebugRef:
+				default:
+					return nil
+				}
+			}
+		case *ssa.UnOp, *ssa.DebugRef:
+		default:
+			return nil
+		}
+	}
+	args := make([]*Term, st.NumFields())
+	for i := range args {
+		if vals[i] != nil {
+			args[i] = e.termOf(vals[i])
+		} else {
+			args[i] = zeroTerm(st.Field(i).Type())
+		}
+	}
+	return mk("struct", typeShort(pt.Elem()), args...)
 }
